@@ -34,6 +34,7 @@ type rGen struct {
 	pendingViol bool
 	hist        [][][2]int64 // per source: every (id, owner) ever sent
 	resend      [][][2]int64 // per source: tasks to re-send after a source-stream restart (same ids, same owners)
+	noSrcFaults bool         // faults are target-stream breaks only
 	burstGen    bool         // burst trace: naps between operations
 	slowSrc     bool         // the sources are at times slow to read their acknowledgements (`sgate`)
 	sgated      []bool
@@ -511,7 +512,7 @@ func (g *rGen) next(w *rWorld, i int) string {
 				if openGates() {
 					return g.next(w, i)
 				}
-				if rng.IntN(3) > 0 {
+				if rng.IntN(3) > 0 || g.noSrcFaults {
 					t := rng.IntN(g.nt)
 					if w.tgt[t] != nil && !w.tgt[t].broken {
 						g.gated[t] = false
@@ -593,6 +594,24 @@ func runRoutingFocus(t *testing.T, focus string) {
 		g, begin := newRGenSlowSrc(e.Rng, focus)
 		ops, viol := runRoutingTrace(t, e, begin, g.next)
 		e.Evals++
+		if len(ops) > 6 {
+			e.Distinct(fnv(strings.Join(ops, "|")))
+		}
+		report(viol)
+	}
+	// C03 also on traces WITH stream failures (target breaks, source restarts): monotone and bounded on every single
+	// source-shard stream (C03F); no drain phase (the liveness half is stated for fault-free runs)
+	nFaultyC03 := 0
+	if focus == "C03" {
+		nFaultyC03 = n / 5
+	}
+	for i := 0; i < nFaultyC03; i++ {
+		g, begin := newRGen(e.Rng, "C04")
+		g.focus = "C03"
+		g.noSrcFaults = true // target streams break and reconnect; the source streams stay up (see monitorAck)
+		ops, viol := runRoutingTrace(t, e, begin, g.next)
+		e.Evals++
+		e.Count("trace_c03_with_stream_failures")
 		if len(ops) > 6 {
 			e.Distinct(fnv(strings.Join(ops, "|")))
 		}
